@@ -10,8 +10,8 @@
    Vec-as-stack = list whose head is the top (DfsPre::stack, PolyhedraGen::predicates); to_remove is in push order.
    The LP solver and mirror_points are the oracles of Elim.v, indexed by call number; phase_inh / phase_one /
    phase_two are `classify` / `phase_two` of Elim.v, plus the assert!(!solution.is_empty()) of phase_inh.
-   Not modelled: the PerformanceCounter (its only fallible reads, num_nodes(node) - 1, traverse the node's subtree
-   and cannot fail on an arena whose child indices are valid), debug_assert!s, size_lb / size_ub of DfsPre. *)
+   Not modelled: the values of the PerformanceCounter (but the traversal num_nodes(node) that feeds skipped_nodes is run,
+   because its expect can panic), debug_assert!s, size_lb / size_ub of DfsPre, shape checks of ndarray. *)
 From AT Require Import Num Vec Aff PTree Cells Abs Tree Cache Elim.
 
 Definition ae_K : nat := 2%nat.
@@ -221,6 +221,19 @@ Definition dfs_next (a : arena acont) (s : dfs) : option (option ((nat * nat * n
     end
   end.
 Definition dfs_skip (s : dfs) : dfs := mkdfs (skipn (d_last_push s) (d_stack s)) 0%nat.
+(* Tree::num_nodes(i) = DfsPre::iter(self, i).count(); None = the expect of DfsPre::next fails *)
+Fixpoint dfs_count (fuel : nat) (a : arena acont) (s : dfs) (n : nat) : option nat :=
+  match fuel with
+  | O => None
+  | S f =>
+    match dfs_next a s with
+    | None => None
+    | Some None => Some n
+    | Some (Some (_, s')) => dfs_count f a s' (S n)
+    end
+  end.
+Definition ae_num_nodes (a : arena acont) (i : nat) : option nat :=
+  dfs_count (S (length a)) a (mkdfs [(0%nat, i, 0%nat)] 0%nat) 0%nat.
 
 (* ---------------------------------------------------------------- PolyhedraGen *)
 Record pgen := mkpgen { g_preds : list (vec * Qc);   (* head = last pushed *)
@@ -264,7 +277,11 @@ Definition ae_step (o : oracle) (tol : Qc) (root : nat) (c : mcfg) : sres :=
     | None => SPanic                                                     (* node_value(node_idx).unwrap() *)
     | Some ci =>
       match ac_state (c_val ci) with
-      | Infeas => SNext (mkcfg a (pg_skip g1) (m_k c) (m_rem c))
+      | Infeas =>
+        match ae_num_nodes a i with                                      (* skipped_nodes += num_nodes(node_idx) - 1 *)
+        | None => SPanic
+        | Some _ => SNext (mkcfg a (pg_skip g1) (m_k c) (m_rem c))
+        end
       | Feas | FeasW _ => SNext (mkcfg a g1 (m_k c) (m_rem c))
       | Indet =>
         match ae_parent a i with                                         (* self.tree.parent(node_idx).unwrap() *)
@@ -277,15 +294,19 @@ Definition ae_step (o : oracle) (tol : Qc) (root : nat) (c : mcfg) : sres :=
               let '(s, k') := classify o tol stP (rev (g_preds g1)) h (m_k c) in
               let rem' := if is_infeas s then m_rem c ++ [(l, p)] else m_rem c in
               let g2 := if is_infeas s then pg_skip g1 else g1 in
-              match ae_set_state a i s with
+              match (if is_infeas s then ae_num_nodes a i else Some 0%nat) with   (* skipped_nodes += num_nodes(node_idx) - 1 *)
               | None => SPanic
-              | Some a1 =>
-                if Nat.eqb nrem 0%nat then
-                  match ae_forward root a1 p with
-                  | None => SPanic
-                  | Some a2 => SNext (mkcfg a2 g2 k' rem')
-                  end
-                else SNext (mkcfg a1 g2 k' rem')
+              | Some _ =>
+                match ae_set_state a i s with
+                | None => SPanic
+                | Some a1 =>
+                  if Nat.eqb nrem 0%nat then
+                    match ae_forward root a1 p with
+                    | None => SPanic
+                    | Some a2 => SNext (mkcfg a2 g2 k' rem')
+                    end
+                  else SNext (mkcfg a1 g2 k' rem')
+                end
               end
             end
           | _, _ => SPanic
